@@ -75,7 +75,7 @@ func main() {
 	r.Assumptions = []string{"oras adds org.opencontainers.image.created to manifests: annotations are compared as pushed ⊆ listed with extras limited to that key",
 		"a refusal to open or list a layout that contains an inconsistent hostile manifest is a refusal, not a wrong listing; byte-identical re-pushes are idempotent (the model is a set)"}
 	ctx := context.Background()
-	n := r.N(600, 6000)
+	n := r.N(600, 20000)
 	lib.Parallel(n, 16, func(iter int) {
 		rng := r.Rand(fmt.Sprintf("seq-%d", iter))
 		onDisk := iter%2 == 0
